@@ -26,7 +26,7 @@ pub struct Ctx {
     pub _scratch: Scratch,
 }
 
-pub const OPS: [&str; 26] = [
+pub const OPS: [&str; 28] = [
     "insert_new",
     "overwrite",
     "delete",
@@ -53,6 +53,8 @@ pub const OPS: [&str; 26] = [
     "insert_at_hard_limit",
     "insert_index_full",
     "get_embedding_cache_aware",
+    "knn_similar",
+    "knn_evicting",
 ];
 
 fn vecf(seed: u64, dim: usize) -> Vec<f32> {
@@ -153,6 +155,22 @@ pub fn run_op(ctx: &Ctx, op: &str, salt: u64) {
         }
         "knn_search" => {
             let _ = e.knn_search(&vecf(3 + salt % 2, d), 3);
+        }
+        "knn_similar" => {
+            // close to the query cached by make_ctx (vecf(1)) but not bit-identical: similarity-hit path
+            let mut q = vecf(1, d);
+            q[(salt as usize) % d] += 0.01 + 0.001 * (salt % 7) as f32;
+            let n = q.iter().map(|x| x * x).sum::<f32>().sqrt();
+            for x in q.iter_mut() {
+                *x /= n;
+            }
+            let _ = e.knn_search(&q, 2);
+        }
+        "knn_evicting" => {
+            // more distinct queries than the query cache holds: evicting inserts
+            for i in 0..6u64 {
+                let _ = e.knn_search(&vecf(1000 + salt * 8 + i, d), 2);
+            }
         }
         "knn_search_ef" => {
             let _ = e.knn_search_with_ef(&vecf(4, d), 3, Some(16));
